@@ -111,8 +111,11 @@ pub fn gen_scope(rng: &mut Rng, _k: usize, _tier: &str) -> J {
     let qualified = rng.chance(1, 3);
     let reference = if qualified { format!("{ralias}.{rcol}") } else { rcol.to_string() };
     let holders: Vec<usize> = (0..n).filter(|i| TABLES[items[*i].0].1.contains(&rcol)).collect();
-    let place = *rng.pick(&["select", "where", "group", "order"]);
+    // `wildcard`: the reference is made from outside, through `SELECT *` over the join (always unqualified)
+    let place = *rng.pick(&["select", "where", "group", "order", "wildcard", "wildcard"]);
+    let (qualified, reference) = if place == "wildcard" { (false, rcol.to_string()) } else { (qualified, reference) };
     let sql = match place {
+        "wildcard" => format!("SELECT {reference} AS r FROM (SELECT * FROM {from}) AS s"),
         "select" => format!("SELECT {reference} AS r FROM {from}"),
         "where" => format!("SELECT count(*) AS r FROM {from} WHERE {reference} > 0"),
         "group" => format!("SELECT count(*) AS r FROM {from} GROUP BY {reference}"),
